@@ -174,20 +174,22 @@ CLAUSES = {
     "C02": {"frame law of the merge and of a first apply (what the configuration is silent about is kept, where the merge descends); refutations without that condition": "theorems",
             "adds/changes only configuration fields; removes only beneath abandoned fields; others keep values (apply with pruning)": "correspondence + judges (frame conditions on Compare(live, result))",
             "disjoint configurations commute": "judge disjoint-configurations-commute (reading R13)"},
-    "C03": {"a manager's first apply removes nothing": "theorem first_apply_is_merge / apply_with_empty_record_is_merge + judge",
-            "abandoned unowned fields are removed, leave the record": "correspondence + judge abandoned-field-removed (reading R3)"},
-    "C04": {"force never conflicts; unforced success = forced; conflict non-empty, other managers only": "theorems",
-            "the conflict list is exactly the set of other managers' fields changed or created": "judge against an independent Compare(live, forced result)"},
-    "C05": {"applier owns exactly its (filtered) configuration; others only shrink, keep version/status; no empty record; updater equation": "theorems (managed fields sorted by manager = Go map invariant)",
-            "others lose exactly the changed/created/removed fields": "judge against an independent diff"},
+    "C03": {"a manager's first apply removes nothing; what prune keeps (owned way / outside the previous record); an abandoned unowned scalar leaf is removed; C01 for every apply (single version)": "theorems",
+            "containers left without content; multi-version; exactness of the removed set": "correspondence + judge abandoned-field-removed (reading R3)"},
+    "C04": {"force never conflicts; unforced success = forced; conflict non-empty, other managers only; the conflict list is exactly the other managers' paths the comparison reports modified or added (identity converter)": "theorems",
+            "the comparison itself": "C11 theorems; judge with an independent changed-leaf detection (resolver)"},
+    "C05": {"applier owns exactly its (filtered) configuration; others only shrink, keep version/status; no empty record; updater equation; exact change of every other record after Update and after Apply; ManagedFields.Equals / Difference laws": "theorems (managed fields sorted by manager = Go map invariant)",
+            "the same through the implementation": "judges against an independent diff; hlp domain"},
     "C06": {"along every history of Updates: live object valid, managed fields well formed, every owned path designates a node of the live object (independent resolver); one-step lemmas for Update and a first Apply": "theorems (Compare facts discharged from C11 exactness)",
             "apply with pruning; only conflict errors": "correspondence + judges (independent path resolver)",
             "typed operations total on accepted values": "theorems SMD.C13.*_ok_of_valid"},
-    "C07": {"no-op signal exact": "theorems", "re-apply / extract-apply fixed point": "judge (second Apply after every successful apply)"},
+    "C07": {"no-op signal exact": "theorems",
+            "re-apply fixed point when nothing was pruned (first apply) / when the merge absorbs the configuration; refutations for configurations with empty items or containers (O10)": "theorems",
+            "re-apply / extract-apply fixed point in general": "judge (second Apply after every successful apply, plain configurations)"},
     "C08": {"conversion failure at any recorded version surfaces as an error with no object": "theorems (for every converter)",
             "arguments unchanged": "observational: canonical snapshots before/after every call in every domain"},
-    "C09": {"every Go map iteration accounted for; permutation invariance of conflicts, per-version unions, map validation, map field sets": "theorems (fact table regenerated from /repo each run)",
-            "independence of call history / pooled state / representation": "observational: repeat-call judges, 3x3 representations, known finding D10"},
+    "C09": {"every Go map iteration accounted for; pooled walkers reset every field except listed scratch fields; permutation invariance of conflicts, per-version unions, map validation, map field sets; D10 witness": "theorems (fact tables regenerated from /repo each run)",
+            "independence of call history / pooled state / representation / process-wide caches": "observational: repeat-call judges, 3x3 representations, iso domain (fresh-process pairs); every op of the property's domains counts (the model is a pure function)"},
     "C10": {"protocols (once, mutex memo, copy-on-write cache) linearizable, sound, exclusive": "theorems over all interleavings",
             "every access to the shared fields inside its protocol": "theorem guard_table_admissible on the table regenerated from /repo each run",
             "no data race in the Go memory model": "race detector on the conc domain (search tool)"},
@@ -198,18 +200,19 @@ CLAUSES = {
             "associativity / ordering of members": "correspondence + judges"},
     "C13": {"accepted iff conforms (independent reference validator); never panics; resolve congruence; operations total on accepted values": "theorems",
             "schema documents accepted iff they conform to the schema of schemas": "correspondence against validation of the decoded document under the schema of schemas shipped from the source"},
-    "C14": {"remove/extract nothing; field sets well formed; no invented entries; (node laws when present in the audit)": "theorems",
-            "partition law over subsets of leaf paths": "judge"},
+    "C14": {"remove/extract nothing; field sets well formed; no invented entries; node laws; extracting all leaves reproduces the object; field set of remove(S) disjoint from S; partition law for values without lists and for field leaves": "theorems",
+            "partition law with whole list items in S (equality up to member order)": "judge; exhaustive over leaf subsets in typx"},
     "C15": {"all clauses": "theorems (refinement of every trie operation to set algebra on paths, invariant closure, iteration order, extensional equality)"},
-    "C16": {"parse(emit s) = s; every parse well formed; unknown kinds skipped; repeated keys tolerated": "theorems (tree level, lawful key codec as named hypothesis)",
-            "key text (JSON payload of path elements), canonical bytes, byte fuzz": "correspondence + judges; known finding D6"},
+    "C16": {"parse(emit s) = s; every parse well formed; unknown kinds skipped; repeated keys tolerated": "theorems (tree level, any lawful key codec)",
+            "the concrete codec is lawful down to JSON text (sorted keys); canonical form: equal sets with plainly spelled numbers serialise identically; D6 witness": "theorems",
+            "bytes of jsoniter, byte fuzz": "correspondence + judges; known finding D6"},
     "C17": {"all clauses for values, key lists, path elements, matchers, paths, sorted containers": "theorems",
-            "schema equality relates exactly the structurally identical schemas": "correspondence + judges on re-parses and single-point edits"},
+            "schema equality is an equivalence and relates exactly the schemas identical up to the sign of zero defaults": "theorems (+ correspondence on re-parses and single-point edits incl. unions)"},
     "C18": {"Set/Delete change exactly that entry (abstract value)": "theorems",
             "reflection = encoding/json round trip on the Go family (reflectV vs jsonV: both total, Equal results, same keys, sorted fields)": "theorems about the two models; both models tied to the real NewValueReflect and encoding/json by rfl.conv / rfl.json",
             "equality/ordering/typed operations agree across representations; custom marshalers; JSON/YAML round trips": "correspondence + judges (external libraries)"},
-    "C19": {"filter algebra (exclude = recursive difference, include = compatible paths); actor never owns ignored paths": "theorems",
-            "no conflicts / no ownership loss from ignored-only changes; ignored values flow": "judges; known finding D8"},
+    "C19": {"filter algebra (exclude = recursive difference, include = compatible paths); actor never owns ignored paths; over all histories: records well formed, never an ignored path (exclusion), only kept paths (include pattern); ignored-only changes: no conflict, nothing taken": "theorems",
+            "ignored values flow": "judges; known finding D8 (kernel-checked witness)"},
     "C20": {"records at missing versions dropped without effect": "theorems",
             "granular -> atomic reconcile": "correspondence + judge (cut at outermost atomic prefix, idempotent); theorems when present in the audit (C20Reconcile)",
             "lossless converter transparency": "false of the code (known finding D11, kernel-checked witness d11_versioned_reapply_differs_witness); elsewhere correspondence (renaming converter in the model) + judge versioned run = single-version run"},
